@@ -4,6 +4,8 @@ CONSTANTS
   Interleave = TRUE
   SeqParams <- SeqC12
   Modes = {"None"}
+  Splits = {"any"}
+  PreInjects = {"none"}
   Moves = {}
   Damages = {}
   Injects = {}
